@@ -140,7 +140,10 @@ type Map struct {
 	o    *Obj
 	keyT types.Type
 	m    map[string]*mapEntry
+	sym  []*mapEntry // entries whose key is symbolic (known to differ from every other key on this path)
 }
+
+func (m *Map) Len() int { return len(m.m) + len(m.sym) }
 
 type Rtype struct{ t types.Type }
 
